@@ -85,6 +85,66 @@ fn main() {
                 println!("{c}: {k}");
             }
         }
+        "c05dbg" => {
+            rva::install_panic_hook();
+            let seed: u64 = args.get(2).and_then(|s| s.parse().ok()).unwrap_or(1);
+            let ci: usize = args.get(3).and_then(|s| s.parse().ok()).unwrap_or(0);
+            let k: u64 = args.get(4).and_then(|s| s.parse().ok()).unwrap_or(0);
+            let kind = gen::ALL_INJECT[ci];
+            let mut rng = rng::Rng::derive(seed, 5_000 + ci as u64, k);
+            let style = if rng.chance(0.5) { print::Style::plain() } else { print::Style::random(&mut rng) };
+            let c = props::common::make_case(&mut rng, &gen::Profile::conforming(), Some(kind), Some(&style));
+            for (i, l) in c.printed.text.lines().enumerate() {
+                println!("{i:4}: {l}");
+            }
+            println!("site {:?}", c.g.site);
+            if let Some(site) = &c.g.site {
+                for l in &site.lines {
+                    println!("site printed line {:?}", c.printed.line_of_src.get(*l));
+                }
+            }
+            match props::common::analyze(&c.printed.text) {
+                Ok(a) => {
+                    for d in a.all_diags() {
+                        println!("{}", props::common::diag_brief(&d));
+                    }
+                }
+                Err(p) => println!("PANIC {} {}", p.site(), p.msg),
+            }
+        }
+        "bench" => {
+            rva::install_panic_hook();
+            let n: u64 = args.get(2).and_then(|s| s.parse().ok()).unwrap_or(100);
+            let t0 = std::time::Instant::now();
+            let mut progs = Vec::new();
+            let mut lines = 0;
+            for seed in 0..n {
+                let mut r = rng::Rng::new(seed);
+                let g = gen::generate(&mut r, &gen::Profile::conforming(), None);
+                let p = print::print_plain(&g.prog);
+                lines += p.text.lines().count();
+                progs.push((g, p));
+            }
+            println!("gen+print {:?} lines/prog {}", t0.elapsed(), lines as u64 / n);
+            let t0 = std::time::Instant::now();
+            for (_, p) in &progs {
+                let _ = rva::guarded(|| rva::analyze_text(&p.text));
+            }
+            println!("analyze {:?}", t0.elapsed());
+            let t0 = std::time::Instant::now();
+            for (_, p) in &progs {
+                let _ = rva::guarded(|| rva::parse_only(rva::MemReader::single("main.s", &p.text), "main.s"));
+            }
+            println!("parse only {:?}", t0.elapsed());
+            let t0 = std::time::Instant::now();
+            let mut steps = 0;
+            for (g, _) in &progs {
+                let flat = g.prog.flatten();
+                let (_, _, s) = machine::run_conv(&flat, 1, 200000);
+                steps += s;
+            }
+            println!("machine {:?} steps {}", t0.elapsed(), steps);
+        }
         "check" => {
             // rvmon check <PROP> --tier quick|thorough --seed N --root DIR --jobs N --rva-checked P --rva-release P
             rva::install_panic_hook();
